@@ -651,13 +651,21 @@ class Session:
         mon.begin()
         exc = res = None
         try:
-            res = mon.R.interpolate_ntv2(self.grid, lat, lon, method)
+            res = mon.R.interpolate_ntv2(self.grid, lat, lon, self.method_arg(method))
         except Exception as e:
             exc = e
         reads = mon.reads()
         ctx.judged()
         self._judge(case, q, method, loc, res, exc, reads, '')
         return res
+
+    def method_arg(self, method):
+        """Every second call names the method by an equal string that is not the literal object."""
+        self._mcalls = getattr(self, '_mcalls', 0) + 1
+        if self._mcalls % 2:
+            return method
+        self.ctx.count('method_named_by_an_equal_non_literal_string')
+        return core.fresh_str(method)
 
     def _ring(self, loc, method, nodes=()):
         """Outermost-ring classifier (was the known-finding classifier until the repair /repo 7c5d0cf; now only names
@@ -895,7 +903,7 @@ class Session:
         mon.begin()
         exc = res = None
         try:
-            res = mon.T.ntv2_2d(self.grid, lat, lon, forward, method)
+            res = mon.T.ntv2_2d(self.grid, lat, lon, forward, self.method_arg(method))
         except Exception as e:
             exc = e
         reads = mon.reads()
